@@ -239,6 +239,30 @@ impl deser::ReadNoStd for FailingReader<'_> {
     }
 }
 
+/// A reader that refuses one request (the first one that would cross `fail_at`)
+/// and serves every later one: a transient failure.
+pub struct OnceFailingReader<'a> {
+    pub data: &'a [u8],
+    pub off: usize,
+    pub fail_at: usize,
+    pub failed: bool,
+}
+
+impl deser::ReadNoStd for OnceFailingReader<'_> {
+    fn read_exact(&mut self, b: &mut [u8]) -> deser::Result<()> {
+        if !self.failed && self.off + b.len() > self.fail_at {
+            self.failed = true;
+            return Err(deser::Error::ReadError);
+        }
+        if self.off + b.len() > self.data.len() {
+            return Err(deser::Error::ReadError);
+        }
+        b.copy_from_slice(&self.data[self.off..self.off + b.len()]);
+        self.off += b.len();
+        Ok(())
+    }
+}
+
 /// Like `ArrSink`, but the first `write_all` (the stream prefix that moves the
 /// writer to its start offset) is counted and not stored, so the payload sits
 /// at concrete buffer offsets even when the start offset is symbolic.
